@@ -391,14 +391,7 @@ func init() {
 			}
 			before := bt.Snap["c04.escrow"].(sdk.Coins)
 			after := escrowBalance(w, w.C.Ctx())
-			topLevelFeeOp := false
-			if bt.Tx.Wrap == WrapTop {
-				for _, o := range bt.Ops {
-					if o.IsFeeOp {
-						topLevelFeeOp = true
-					}
-				}
-			}
+			topLevelFeeOp := bt.HasTopLevelFeeOp()
 			lockedBefore := bt.Snap["c04.lockedPayer"].(*big.Int)
 			lockedAfter := lockedOf(w, w.C.Ctx(), bt.Payer)
 			unlocked := new(big.Int).Sub(lockedBefore, lockedAfter)
@@ -592,6 +585,13 @@ func init() {
 					credited[p.purchaser] = true
 				}
 			}
+			// what was recorded as spent stays recorded: no block hook moves the spent books
+			for _, a := range w.Book {
+				if b, af := before[a.Key()].spent, after[a.Key()].spent; b != nil && af != nil && b.Cmp(af) != 0 {
+					w.Fail("C05", "begin-block changed the spent eFUND recorded for %s from %s to %s (only a fee-paying WRKChain/BEACON transaction records spending)", a.Name, b, af)
+					return
+				}
+			}
 			for _, a := range w.Book {
 				if !credited[a.Key()] {
 					continue
@@ -638,7 +638,7 @@ func init() {
 			feeAmt := bt.Fee.AmountOf(w.Ent.P.Denom).BigInt()
 			if before[bt.Payer.Key()].locked.Sign() > 0 {
 				w.Class("c05.payer-with-locked")
-				if contains && bt.Tx.Wrap == WrapTop {
+				if contains && bt.HasTopLevelFeeOp() {
 					w.Class("c05.feeop-by-locked-payer")
 				}
 			}
